@@ -143,6 +143,28 @@ func VerifGroupForkSwitch(ancestor *types.Group, branch []*types.Group) (error, 
 	return nil, fork.triggerOnChain(groupChainImpl)
 }
 
+// VerifBlockForkSwitch drives the block fork switch of the sync path (hook
+// H4e): the branch received from a peer is verified into the fork store
+// (blockChainFork.rcv + triggerOnFork: order, hash, tx root, group sign,
+// member, state and receipt roots) and then put on the chain
+// (triggerOnChain: weight comparison, removal down to the common ancestor,
+// addBlockOnChain one by one). destroy() runs as in syncProcessor.finish.
+// Returns the fork-verification error (if any) and triggerOnChain's result.
+func VerifBlockForkSwitch(ancestor *types.Block, branch []*types.Block) (error, bool) {
+	if syncLogger == nil {
+		syncLogger = log.GetLoggerByIndex(log.SyncLogConfig, common.GlobalConf.GetString("instance", "index", ""))
+	}
+	fork := newBlockChainFork(*ancestor)
+	defer fork.destroy()
+	for i, b := range branch {
+		fork.rcv(b, i == len(branch)-1)
+	}
+	if err, _ := fork.triggerOnFork(nil); err != nil {
+		return err, false
+	}
+	return nil, fork.triggerOnChain(blockChainImpl)
+}
+
 // VerifServeGroupRequest does what the sync server does with the group chain
 // when a peer asks for the group at a height (syncGroupReqHandler): it reads
 // the local height and the group without taking the chain lock.
